@@ -1,6 +1,6 @@
 """Which units decide which property (DESIGN.md §5)."""
 
-BUNDLES = ["core", "processor"]
+BUNDLES = ["core", "processor", "chanbuf"]
 KANI_UNITS = []
 
 A_DLL = "DualLinkedList contract (abstract view Seq<(E,Duration,usize)>; add = stable insert behind all entries with time <= t, pop_min = remove front, cancel = remove first entry with the id, front_time): assumed — raw-pointer code outside Verus"
@@ -52,9 +52,10 @@ PROPS = {
         "not_covered": ["free-list functions find_region/add_free_region/allocate/deallocate (&'static mut nodes written through int->ptr casts: Verus rejects, Kani ran out of memory), LocalBox, node ownership, drop-exactly-once of payloads, CQueue::drop order: no history-level claim (non-overlap over all histories, recycling) is made"],
     },
     "C16": {
-        "bundles": [], "kani": ["body"],
+        "bundles": ["chanbuf"], "kani": ["body"],
+        "fns": {"chanbuf": ["Message::length"]},
         "assumptions": [A_KANI, "'all body types' is covered by instances {u8,u32,u64,(),[u8;4],Tok(with Drop),Other,NoClone}"],
-        "not_covered": ["Message::length = 64 + body length and the derive macro's byte_len (files that cannot be included stand-alone)"],
+        "not_covered": ["the derive macro's byte_len (sum over fields of the active variant): des-macros-core is not covered", "Body::length is linked to the Verus unit by an assumed contract (proved on the Kani side)"],
     },
     "C14": {
         "bundles": ["processor"],
@@ -63,5 +64,14 @@ PROPS = {
                         "shim declarations: trait ProcessingElement (supertrait Any and default bodies dropped), opaque Message, trait Module"],
         "not_covered": ["that every ModuleRef entry point calls incoming_upstream -> handler -> incoming_downstream (net/module/refs.rs, net/runtime/events.rs: RefCell + tokio harness): read, not proved",
                         "brackets of two events never interleave; emission order of sends; processing stacks supplied via Module::stack"],
+    },
+    "C07": {
+        "bundles": ["chanbuf"],
+        "fns": {"chanbuf": ["Buffer::enqueue", "Buffer::dequeue", "ChannelDropBehaviour::handle", "Message::length"]},
+        "assumptions": ["opaque shims Header/Body/Connection; Body::length = declared length (Kani unit body)", "std: Option::map_or, VecDeque push_back/pop_front (vstd)", "mem::drop of a message has no effect on the buffer",
+                        "precondition: accumulated bytes + message length <= usize::MAX (the comparison `acc_bytes + msg.length() > limit` is otherwise an overflow)", "configuration verified: feature `tracing` off (cfg'd statements are stripped)"],
+        "not_covered": ["transmission and arrival TIMES (size*8/bitrate + latency + jitter): f64 arithmetic in calculate_busy/calculate_duration — no float theory within reach",
+                        "Channel::send_message / unbusy (Arc<Self> + RwLock + global RNG + dyn probe): 'busy exactly for the transmission time', 'delivered exactly once to the next hop', 'never stuck once idle' are NOT decided",
+                        "only the queue/drop accounting of C07 is claimed: Buffer invariant, FIFO, Drop and Queue(limit) policies"],
     },
 }
